@@ -274,6 +274,98 @@ func c11scenario(c c11cfg) *explore.Scenario {
 	return sc
 }
 
+// c11big: one remote sends datagrams whose sizes are around half of the connection's initial
+// 2048-byte receive ring, so that two or three unread datagrams fill it to the byte, wrapped or
+// not; reads are interleaved.  Sequential (one schedule per script); the per-connection FIFO
+// must return every datagram byte-identical and in order.
+func c11big(steps int) *explore.Scenario {
+	sc := &explore.Scenario{Name: fmt.Sprintf("listener one remote, ring-filling datagrams, %d steps", steps), Bound: 0}
+	sc.Cfg.Horizon = 10 * time.Second
+	sc.Cfg.Strict = true
+	sizes := []int{1000, 1020, 1023, 1, 1021}
+	sc.Make = func() (func(), func(*zzvsched.Exec) (string, *explore.Violation)) {
+		var viol *explore.Violation
+		var script []string
+		finished := false
+		body := func() {
+			fakenet.Reset()
+			l, err := udp.Listen("udp", &net.UDPAddr{IP: net.IPv4(127, 0, 0, 1), Port: 4000})
+			if err != nil {
+				panic(err)
+			}
+			sock := fakenet.Sockets[0]
+			ra := udpRemotes["a1"]
+			var model [][]byte
+			seq := 0
+			send := func(n int) {
+				seq++
+				p := make([]byte, n)
+				for i := range p {
+					p[i] = byte(seq*29 + i*5 + 1)
+				}
+				p[0] = byte(seq)
+				model = append(model, append([]byte(nil), p...))
+				sock.Inject(ra, p)
+				zzvsched.WaitIdle()
+			}
+			send(1000)
+			script = append(script, "W1000")
+			cn, err := l.Accept()
+			if err != nil {
+				panic(err)
+			}
+			read := func() bool {
+				buf := make([]byte, 4096)
+				n, err := cn.Read(buf)
+				want := model[0]
+				model = model[1:]
+				if err != nil || n != len(want) || string(buf[:n]) != string(want) {
+					viol = &explore.Violation{Sig: "C11 big-datagram-corrupted", Msg: fmt.Sprintf("script %v: the connection returned %d bytes (err %v, first byte %d) where datagram #%d of %d bytes was next", script, n, err, buf[0], want[0], len(want))}
+					return false
+				}
+				return true
+			}
+			for i := 0; i < steps; i++ {
+				k := zzvsched.Choose(len(sizes) + 1)
+				if k == len(sizes) {
+					if len(model) == 0 {
+						script = append(script, "skip")
+						continue
+					}
+					script = append(script, "R")
+					if !read() {
+						return
+					}
+					continue
+				}
+				script = append(script, fmt.Sprintf("W%d", sizes[k]))
+				send(sizes[k])
+			}
+			for len(model) > 0 {
+				if !read() {
+					return
+				}
+			}
+			finished = true
+		}
+		check := func(ex *zzvsched.Exec) (string, *explore.Violation) {
+			out := strings.Join(script, ",")
+			if len(ex.Panics) > 0 {
+				return out, &explore.Violation{Sig: "C11 panic", Msg: fmt.Sprintf("script %v: panic: %s", script, ex.Panics[0].Value)}
+			}
+			if viol != nil {
+				return out, viol
+			}
+			if !finished && !ex.HorizonHit {
+				return out, &explore.Violation{Sig: "C11 big-datagram-blocked", Msg: fmt.Sprintf("script %v: a Read blocked although a datagram was delivered: %v", script, ex.Parked)}
+			}
+			return out, nil
+		}
+		return body, check
+	}
+	return sc
+}
+
 // ------------------------------------------------------------------ C12
 
 type c12cfg struct {
@@ -511,9 +603,14 @@ func init() {
 			for _, c := range cfgs {
 				out = append(out, c11scenario(c))
 			}
+			if tier == "thorough" {
+				out = append(out, c11big(7))
+			} else {
+				out = append(out, c11big(5))
+			}
 			return out
 		},
-		Rule:        "remotes {a:1, a:2, b:1} (same IP / different port forced) injecting 1-2 tagged datagrams each from their own threads, an accepter thread, one reader thread per accepted connection, optionally closing a connection and sending again; backlog {1,2,128}, accept filter {none, reject-first}, batch read {off,2,3 with partial batches}; every interleaving within the deviation bound over the scheduler-visible fake socket",
+		Rule:        "one remote sending every script of 5 (thorough 7) steps over {datagrams of 1000/1020/1021/1023/1 bytes, Read} so that unread datagrams fill the connection's receive ring to the byte; remotes {a:1, a:2, b:1} (same IP / different port forced) injecting 1-2 tagged datagrams each from their own threads, an accepter thread, one reader thread per accepted connection, optionally closing a connection and sending again; backlog {1,2,128}, accept filter {none, reject-first}, batch read {off,2,3 with partial batches}; every interleaving within the deviation bound over the scheduler-visible fake socket",
 		Assumptions: []string{"OS socket and ipv4.PacketConn batching replaced by zzvsched/fakenet", "completeness is asserted only where nothing may be refused (backlog larger than the number of remotes, no concurrent Close)"}})
 	register(&Check{ID: "C12",
 		Scenarios: func(tier string) []*explore.Scenario {
